@@ -218,6 +218,8 @@ func partAConfigs(tier string) []bfsRun {
 	}
 	abc := []string{"A", "B", "C"}
 	th := []bfsRun{
+		{bCfg{Name: "T-archival-window-edge", Archival: true, Blocks: []vBlockSpec{{Height: 1, TC: tcEdge, Content: cBlob}, {Height: 2, TC: tcOut, Content: cTx}},
+			Sources: ab, Queue: 1, FetchAns: []string{"blk", "timeout"}, SyncAns: []string{"synced", "slow", "err"}, Avail: true, GetAns: []string{"eds", "notfound"}, Stop: true}, 18},
 		{bCfg{Name: "T-pruned-3src-q2", Blocks: []vBlockSpec{{Height: 1, TC: tcOut, Content: cBlob}, {Height: 2, TC: tcIn, Content: cTxBlob}, {Height: 3, TC: tcIn, Content: cEmpty}},
 			Sources: abc, Queue: 2, FetchAns: []string{"blk", "err", "timeout"}, SyncAns: []string{"synced", "syncing", "err", "timeout"}, Tick: true}, 18},
 		{bCfg{Name: "T-archival-2src-4h", Archival: true, Blocks: []vBlockSpec{{Height: 1, TC: tcOut, Content: cBlob}, {Height: 2, TC: tcOut, Content: cEmpty}, {Height: 3, TC: tcIn, Content: cTx}, {Height: 4, TC: tcOut, Content: cBig}},
@@ -229,16 +231,14 @@ func partAConfigs(tier string) []bfsRun {
 			GetAns: []string{"eds", "notfound", "canceled", "byz"}, Stop: true}, 18},
 		{bCfg{Name: "T-pruned-3src-4h", Blocks: []vBlockSpec{{Height: 1, TC: tcOut, Content: cBlob}, {Height: 2, TC: tcIn, Content: cTxBlob}, {Height: 3, TC: tcIn, Content: cEmpty}, {Height: 4, TC: tcIn, Content: cBig}},
 			Sources: abc, Queue: 1, FetchAns: []string{"blk", "err"}, SyncAns: []string{"synced", "syncing", "err"}}, 18},
-		{bCfg{Name: "T-archival-3src-q2-avail", Archival: true, Blocks: []vBlockSpec{{Height: 1, TC: tcOut, Content: cBlob}, {Height: 2, TC: tcIn, Content: cEmpty}, {Height: 3, TC: tcOut, Content: cTx}},
-			Sources: abc, Queue: 2, FetchAns: []string{"blk", "err"}, SyncAns: []string{"synced", "err"}, Avail: true, GetAns: []string{"eds", "deadline"}}, 18},
+		{bCfg{Name: "T-archival-3src-avail", Archival: true, Blocks: []vBlockSpec{{Height: 1, TC: tcOut, Content: cBlob}, {Height: 2, TC: tcIn, Content: cEmpty}, {Height: 3, TC: tcOut, Content: cTx}},
+			Sources: abc, Queue: 1, FetchAns: []string{"blk", "err"}, SyncAns: []string{"synced", "err"}, Avail: true, GetAns: []string{"eds", "deadline"}}, 18},
 		{bCfg{Name: "T-pruned-parked-put-race", Blocks: []vBlockSpec{{Height: 1, TC: tcIn, Content: cTxBlob}, {Height: 2, TC: tcIn, Content: cEmpty}, {Height: 3, TC: tcOut, Content: cBlob}},
 			Sources: ab, Queue: 1, FetchAns: []string{"blk", "err"}, SyncAns: []string{"synced", "syncing", "err"}, Avail: true, GetAns: []string{"eds", "notfound", "canceled"},
 			Pauses: allFaults, Faults: []string{"link"}}, 18},
 		{bCfg{Name: "T-archival-parked-put-race", Archival: true, Blocks: []vBlockSpec{{Height: 1, TC: tcOut, Content: cBlob}, {Height: 2, TC: tcOut, Content: cEmpty}, {Height: 3, TC: tcIn, Content: cTx}},
-			Sources: ab, Queue: 1, FetchAns: []string{"blk", "err"}, SyncAns: []string{"synced", "err"}, Avail: true, GetAns: []string{"eds", "notfound"},
-			Pauses: allFaults}, 18},
-		{bCfg{Name: "T-archival-window-edge", Archival: true, Blocks: []vBlockSpec{{Height: 1, TC: tcEdge, Content: cBlob}, {Height: 2, TC: tcOut, Content: cTx}},
-			Sources: ab, Queue: 1, FetchAns: []string{"blk", "timeout"}, SyncAns: []string{"synced", "slow", "err"}, Avail: true, GetAns: []string{"eds", "notfound"}, Stop: true}, 18},
+			Sources: []string{"A"}, Queue: 1, FetchAns: []string{"blk", "err"}, SyncAns: []string{"synced", "err"}, Avail: true, GetAns: []string{"eds", "notfound"},
+			Pauses: []string{"ods-create", "ods-write", "link", "symlink", "q4-write"}}, 18},
 	}
 	return append(q, th...)
 }
